@@ -16,6 +16,13 @@ Definition fbin (o : binop) (a b : float) : float :=
   | ODiv => PrimFloat.div a b
   end.
 
+(* Python float __neg__ / __abs__: sign bit flipped / cleared (exact) *)
+Definition funop (o : unop) (a : float) : float :=
+  match o with
+  | UNeg => PrimFloat.opp a
+  | UAbs => PrimFloat.abs a
+  end.
+
 Definition fnode := node float.
 Definition fival := ival float.
 
@@ -89,6 +96,6 @@ Definition check_case (c : case) : bool :=
   && Nat.eqb (prior_count float n) (c_count c)
   && list_eqb Nat.eqb ids (c_ids c)
   && (negb (c_cmp_inst c) ||
-      ival_eqb (inst float fbin (zip_args float ids (c_vec c)) m) (c_inst c)
-      && ival_eqb (inst float fbin (path_args float n (c_pv c)) m) (c_inst_paths c)
-      && opt_ival_eqb (inst float fbin (zip_args float ids (c_unit_vec c)) m) (c_inst_unit c)).
+      ival_eqb (inst float fbin funop (zip_args float ids (c_vec c)) m) (c_inst c)
+      && ival_eqb (inst float fbin funop (path_args float n (c_pv c)) m) (c_inst_paths c)
+      && opt_ival_eqb (inst float fbin funop (zip_args float ids (c_unit_vec c)) m) (c_inst_unit c)).
